@@ -89,11 +89,23 @@ def make_endpoint(sx, who, server, trace, clock, opts=None, url="ws://localhost:
     return Endpoint(who, p, t, f), f
 
 
-def patch_env(sx, clock, rnd_prefix="rnd"):
+class FixedRandom:
+    """mask keys are not the subject (see C15): a fixed key keeps the wire octets simple"""
+
+    def __init__(self, value=0x1A2B3C4D):
+        self.value, self.draws = value, []
+
+    def getrandbits(self, k):
+        v = self.value & ((1 << k) - 1)
+        self.draws.append(v)
+        return v
+
+
+def patch_env(sx, clock, rnd_prefix="rnd", fixed_rnd=False):
     """route random / os.urandom / time used by websocket/protocol.py through harness inputs and
     the virtual clock.  Returns the StubRandom (its .draws lists the mask keys in draw order)."""
     import autobahn.websocket.protocol as pm
-    rnd = StubRandom(sx, rnd_prefix)
+    rnd = FixedRandom() if fixed_rnd else StubRandom(sx, rnd_prefix)
     pm.random = ModProxy(_random, getrandbits=rnd.getrandbits, seed=lambda *a: None)
     pm.os = ModProxy(os, urandom=lambda n: _FIXED_KEY[:n] if n <= 16 else bytes(n))
     pm.time = VTime(clock)
@@ -124,13 +136,13 @@ def open_pair(sx, trace=None, server_opts=None, client_opts=None, server_mixin=N
     return clock, trace, s, c, rnd
 
 
-def open_one(sx, server, opts=None, trace=None, mixin=None, url="ws://localhost:9000", attrs=None):
+def open_one(sx, server, opts=None, trace=None, mixin=None, url="ws://localhost:9000", attrs=None, fixed_rnd=False):
     """a single real endpoint brought to OPEN by a canned peer handshake (cheaper than a pair)"""
     import base64
     import hashlib
     clock = setup_twisted()
     trace = Trace() if trace is None else trace
-    rnd = patch_env(sx, clock)
+    rnd = patch_env(sx, clock, fixed_rnd=fixed_rnd)
     who = "S" if server else "C"
     ep, f = make_endpoint(sx, who, server, trace, clock, opts, url, mixin, None, attrs)
     ep.p.makeConnection(ep.t)
